@@ -91,8 +91,7 @@ static int hb_done(hbuf* b) {
 
 /* ------------------------------------------------------------------------------------------------ case state */
 
-#define RESMAX 8192
-typedef struct { uint8_t out[RESMAX]; size_t len; uint64_t ret; int na; int canary; } result;
+typedef struct { uint8_t* out; size_t cap; size_t len; uint64_t ret; int na; int canary; } result;
 
 static const char* P_op;
 static int64_t P_count;
@@ -101,8 +100,9 @@ static uint8_t *P_d0, *P_d1;         /* data buffers (plain heap copies of the h
 static size_t P_n0, P_n1;
 
 static void res_put(result* r, const void* p, size_t n) {
-    if (n > RESMAX) { fprintf(stderr, "result too large\n"); exit(3); }
-    memcpy(r->out, p, n); r->len = n;
+    if (n > r->cap) { free(r->out); r->cap = n + 64; r->out = malloc(r->cap); if (!r->out) abort(); }
+    if (n) memcpy(r->out, p, n);
+    r->len = n;
 }
 
 /* ------------------------------------------------------------------------------------------------ references
@@ -609,8 +609,7 @@ static uint64_t hexu(const char* s) { return strtoull(s, NULL, 16); }
 static uint32_t lcg(uint32_t* s) { *s = *s * 1664525u + 1013904223u; return *s >> 8; }
 
 static void run_op(int v, size_t sa, size_t da, result* r) {
-    memset(r, 0, offsetof(result, out)); r->len = 0; r->ret = 0; r->na = 0; r->canary = 0;
-    r->len = 0;
+    r->len = 0; r->ret = 0; r->na = 0; r->canary = 0;
     cur_variant = vname[v]; cur_sa = (int)sa; cur_da = (int)da;
     if (!strcmp(P_op, "psum32")) op_psum(v, sa, da, r, 4);
     else if (!strcmp(P_op, "psum64")) op_psum(v, sa, da, r, 8);
@@ -649,8 +648,75 @@ static void op_elems(size_t* es, size_t* ed) {
     else if (!strcmp(P_op, "bu")) *ed = 4;
 }
 
+/* ------------------------------------------------------------------------------------------------ large counts
+ * big <op> <variants> <aligns> <count> <pattern> <seed>: the inputs are generated here (deterministically from the
+ * pattern and the seed) instead of travelling as hex; pattern = dense | sparse | every8.  Output bytes are reported
+ * as a 64-bit FNV-1a hash. */
+static uint8_t* big_alloc(size_t n) { uint8_t* b = malloc(n + 1); if (!b) abort(); return b; }
+static int pat_hit(int pat, uint64_t i, uint32_t* st) {      /* is element i "set" under the pattern? */
+    if (pat == 0) return 1;
+    if (pat == 2) return (i & 7) == 0;
+    return lcg(st) % 997 == 0;
+}
+static int gen_big(const char* op, int64_t count, const char* pattern, uint32_t seed, void** b0, void** b1) {
+    int pat = !strcmp(pattern, "dense") ? 0 : !strcmp(pattern, "sparse") ? 1 : !strcmp(pattern, "every8") ? 2 : -1;
+    uint32_t st = seed * 2654435761u + 12345u;
+    size_t n = (size_t)count;
+    if (pat < 0 || count < 0) return 0;
+    P_count = count;
+    if (!strcmp(op, "psum32") || !strcmp(op, "psum64")) {
+        int w = op[4] == '3' ? 4 : 8; uint8_t* d = big_alloc(n * w); memset(d, 0, n * w);
+        for (size_t i = 0; i < n; i++) { uint32_t v = pat_hit(pat, i, &st) ? 1 + lcg(&st) % 900 : 0; memcpy(d + i * w, &v, 4); }
+        P_a = 7; P_d0 = d; P_n0 = n * w; *b0 = d;
+    } else if (!strncmp(op, "gather", 6)) {
+        int w = (!strcmp(op, "gather32") || !strcmp(op, "gatherf")) ? 4 : 8; size_t dl = 1000;
+        uint8_t* d = big_alloc(dl * w); for (size_t i = 0; i < dl * w; i++) d[i] = (uint8_t)lcg(&st);
+        uint8_t* ix = big_alloc(n * 4);
+        for (size_t i = 0; i < n; i++) { uint32_t v = pat_hit(pat, i, &st) ? (pat == 0 ? lcg(&st) % dl : (uint32_t)dl - 1) : 0; memcpy(ix + 4 * i, &v, 4); }
+        P_a = dl; P_d0 = d; P_n0 = dl * w; P_d1 = ix; P_n1 = n * 4; *b0 = d; *b1 = ix;
+    } else if (!strncmp(op, "bss", 3)) {
+        int w = op[4] == 'f' ? 4 : 8; uint8_t* d = big_alloc(n * w);
+        for (size_t i = 0; i < n * w; i++) d[i] = pat_hit(pat, i, &st) ? (uint8_t)(1 + lcg(&st) % 255) : 0;
+        P_d0 = d; P_n0 = n * w; *b0 = d;
+    } else if (!strcmp(op, "unpackb")) {
+        size_t nb = (n + 7) / 8; uint8_t* d = big_alloc(nb);
+        for (size_t i = 0; i < nb; i++) d[i] = pat == 0 ? 0xff : pat == 2 ? 0x01 : (pat_hit(1, i, &st) ? (uint8_t)lcg(&st) : 0);
+        P_d0 = d; P_n0 = nb; *b0 = d;
+    } else if (!strcmp(op, "packb")) {
+        uint8_t* d = big_alloc(n); for (size_t i = 0; i < n; i++) d[i] = (uint8_t)pat_hit(pat, i, &st);
+        P_d0 = d; P_n0 = n; *b0 = d;
+    } else if (!strcmp(op, "runlen")) {
+        uint8_t* d = big_alloc(n * 4); uint32_t f = 0x80000001u + seed, o = f ^ 0x01000000u;
+        size_t brk = pat == 0 ? n : pat == 1 ? (n ? n - 1 : 0) : n / 2 + 3;       /* first mismatch */
+        for (size_t i = 0; i < n; i++) memcpy(d + 4 * i, i >= brk && i > 0 ? &o : &f, 4);
+        P_d0 = d; P_n0 = n * 4; *b0 = d;
+    } else if (!strcmp(op, "crc32c") || !strcmp(op, "mcpy")) {
+        uint8_t* d = big_alloc(n); for (size_t i = 0; i < n; i++) d[i] = pat_hit(pat, i, &st) ? (uint8_t)lcg(&st) : 0;
+        P_a = 0x12345678u ^ seed; P_d0 = d; P_n0 = n; *b0 = d;
+    } else if (!strcmp(op, "mcopy")) {
+        size_t off = pat == 0 ? 1 : pat == 1 ? 33 : 4; if (seed & 1) off = pat == 0 ? 2 : pat == 1 ? 8 : 16;
+        size_t h = off + 3; uint8_t* d = big_alloc(h); for (size_t i = 0; i < h; i++) d[i] = (uint8_t)(1 + lcg(&st) % 255);
+        P_a = off; P_d0 = d; P_n0 = h; *b0 = d;
+    } else if (!strcmp(op, "mlen")) {
+        uint8_t *a = big_alloc(n), *b = big_alloc(n);
+        for (size_t i = 0; i < n; i++) a[i] = b[i] = (uint8_t)lcg(&st);
+        size_t brk = pat == 0 ? n : pat == 1 ? (n ? n - 1 : 0) : n / 2 + 5;
+        for (size_t i = brk; i < n; i += 7) b[i] ^= 0x40;
+        P_d0 = a; P_d1 = b; P_n0 = P_n1 = n; *b0 = a; *b1 = b;
+    } else if (!strcmp(op, "nonnull") || !strcmp(op, "nullbm")) {
+        uint8_t* d = big_alloc(n * 2); uint16_t mx = 1, z = 0;
+        for (size_t i = 0; i < n; i++) memcpy(d + 2 * i, pat_hit(pat, i, &st) ? &mx : &z, 2);
+        P_a = mx; P_b = 0xa5; P_d0 = d; P_n0 = n * 2; *b0 = d;
+    } else if (!strcmp(op, "filldef")) { P_a = 0x8001u + (seed & 0xff);
+    } else if (!strcmp(op, "mset")) { P_a = 0x5a ^ (seed & 0xff);
+    } else return 0;
+    return 1;
+}
+static uint64_t fnv64(const uint8_t* p, size_t n) { uint64_t h = 1469598103934665603ull; for (size_t i = 0; i < n; i++) { h ^= p[i]; h *= 1099511628211ull; } return h; }
+
 int main(void) {
     static result ref, got;
+    ref.out = malloc(64); ref.cap = 64; got.out = malloc(64); got.cap = 64;
     while (h_readline()) {
         h_split();
         if (h_ntok == 0) { puts("ERR empty"); continue; }
@@ -662,6 +728,8 @@ int main(void) {
             else puts("ERR unknown-intrinsic");
             free(ba); free(bb); fflush(stdout); continue;
         }
+        int big = 0;
+        if (!strcmp(h_tok[0], "big")) { big = 1; for (int i = 1; i < h_ntok; i++) h_tok[i - 1] = h_tok[i]; h_ntok--; }
         if (h_ntok < 4) { puts("ERR short"); fflush(stdout); continue; }
         P_op = h_tok[0];
         int want[V_N] = {0};
@@ -676,7 +744,8 @@ int main(void) {
         P_count = 0; P_a = P_b = 0; P_d0 = P_d1 = NULL; P_n0 = P_n1 = 0; P_bu = NULL;
         char** t = h_tok + 3; int nt = h_ntok - 3; int ok = 1;
 #define NEED(k) if (nt != (k)) ok = 0
-        if (!strcmp(P_op, "psum32") || !strcmp(P_op, "psum64")) { NEED(3); if (ok) { P_count = atoll(t[0]); P_a = hexu(t[1]); P_d0 = h_unhex(t[2], &P_n0, 0, &b0); } }
+        if (big) { NEED(3); if (ok) ok = gen_big(P_op, atoll(t[0]), t[1], (uint32_t)atol(t[2]), &b0, &b1); }
+        else if (!strcmp(P_op, "psum32") || !strcmp(P_op, "psum64")) { NEED(3); if (ok) { P_count = atoll(t[0]); P_a = hexu(t[1]); P_d0 = h_unhex(t[2], &P_n0, 0, &b0); } }
         else if (!strncmp(P_op, "gather", 6)) { NEED(4); if (ok) { P_count = atoll(t[0]); P_a = (uint64_t)atoll(t[1]); P_d0 = h_unhex(t[2], &P_n0, 0, &b0); P_d1 = h_unhex(t[3], &P_n1, 0, &b1); } }
         else if (!strncmp(P_op, "bss", 3) || !strcmp(P_op, "unpackb") || !strcmp(P_op, "packb") || !strcmp(P_op, "runlen")) { NEED(2); if (ok) { P_count = atoll(t[0]); P_d0 = h_unhex(t[1], &P_n0, 0, &b0); } }
         else if (!strcmp(P_op, "crc32c")) { NEED(2); if (ok) { P_a = hexu(t[0]); P_d0 = h_unhex(t[1], &P_n0, 0, &b0); } }
@@ -715,6 +784,11 @@ int main(void) {
                 calls++;
                 if (got.canary) {
                     printf("DIFF variant=%s sa=%zu da=%zu wrote-outside-buffer\n", vname[v], prs[i][0], prs[i][1]); bad = 1;
+                } else if (big && (got.len != ref.len || memcmp(got.out, ref.out, ref.len) != 0 || got.ret != ref.ret)) {
+                    size_t k = 0; while (k < got.len && k < ref.len && got.out[k] == ref.out[k]) k++;
+                    printf("DIFF variant=%s sa=%zu da=%zu first-different-byte=%zu got=%02x want=%02x ret got=%" PRIx64 " want=%" PRIx64 "\n",
+                           vname[v], prs[i][0], prs[i][1], k, k < got.len ? got.out[k] : 0, k < ref.len ? ref.out[k] : 0, got.ret, ref.ret);
+                    bad = 1;
                 } else if (got.len != ref.len || memcmp(got.out, ref.out, ref.len) != 0 || got.ret != ref.ret) {
                     printf("DIFF variant=%s sa=%zu da=%zu got=", vname[v], prs[i][0], prs[i][1]);
                     h_puthex(got.out, got.len); printf("/%" PRIx64 " want=", got.ret);
@@ -723,10 +797,11 @@ int main(void) {
                 }
             }
         }
-        if (!bad) { printf("OK "); h_puthex(ref.out, ref.len); printf(" %" PRIx64 " calls=%ld\n", ref.ret, calls); }
+        if (!bad && big) printf("OK h=%016" PRIx64 " %" PRIx64 " calls=%ld\n", fnv64(ref.out, ref.len), ref.ret, calls);
+        else if (!bad) { printf("OK "); h_puthex(ref.out, ref.len); printf(" %" PRIx64 " calls=%ld\n", ref.ret, calls); }
         free(b0); free(b1);
         fflush(stdout);
     }
-    free(h_line);
+    free(h_line); free(ref.out); free(got.out);
     return 0;
 }
